@@ -25,7 +25,11 @@ Theorems (any ordered field, any two point sets, any support functions returning
   the EPA arm `-dist ≤` the overlap along `normal1`;
 * `contactSmSm2_none_sound` / `contactSmSm3_none_sound` — `None` is returned only when the shapes are MORE than `prediction` apart
   (every point of the configuration-space obstacle is farther than `prediction` from the origin), or through one of the two
-  documented give-ups (GJK's 100-iteration fallback `NoIntersection(x_axis)`, EPA's `None`).
+  documented give-ups (GJK's 100-iteration fallback `NoIntersection(x_axis)`, EPA's `None`);
+* `gjkBody2_closest_disjoint_partial` / `gjkBody3_…` — a `ClosestPoints` answer through the precision exit or the full-simplex exit
+  certifies that the origin is not in the configuration-space obstacle (the shapes are disjoint: verdict `dist > 0`); the two other
+  `ClosestPoints` exits carry no certificate (stated gap);
+* `faceId_clamped_key_accepted` / `faceId_clamped_key_exact` — in support of `fixes/C02-epa3-new-face-noise.diff`.
 -/
 namespace C02
 open Model Model.Gjk C03 C01
@@ -1097,6 +1101,95 @@ theorem contactSmSm3_epa_arm (hs : LawfulSqrt sq) (pos12 : Iso3 K) (hu : Unit3 p
       exact ⟨rfl, h1 _, h2 _⟩
     have hlen : 2 ≤ (vs3Points s').length := by simp [vs3Points]; omega
     exact contactFromEpa3_consistent sq hs pos12 hu S1 S2 supp1 supp2 h1 h2 fuel (vs3Points s') hsim hlen c he
+
+
+/-! ### a `ClosestPoints` answer certifies disjointness (the verdict `contact.dist > 0 ⇒ no overlap`) -/
+
+private theorem gjkEpsTol_eq : (letI := fieldNum K sq; (Model.Gjk.epsTol : K)) = 10 / 2 ^ 52 := by
+  simp only [Model.Gjk.epsTol, Model.eps, fieldNum_lit]
+  show ((mkRat 1 4503599627370496 : ℚ) : K) * ((mkRat 10 1 : ℚ) : K) = 10 / 2 ^ 52
+  have h1 : ((mkRat 1 4503599627370496 : ℚ) : K) = 1 / 2 ^ 52 := by
+    rw [show (mkRat 1 4503599627370496 : ℚ) = 1 / 2 ^ 52 by norm_num [Rat.mkRat_eq_div]]; push_cast; ring
+  have h2 : ((mkRat 10 1 : ℚ) : K) = 10 := by
+    rw [show (mkRat 10 1 : ℚ) = 10 by norm_num [Rat.mkRat_eq_div]]; push_cast; ring
+  rw [h1, h2]; ring
+
+private theorem gjkEpsRel_bounds (hs : LawfulSqrt sq) :
+    letI := fieldNum K sq
+    0 < (Model.Gjk.epsTol : K) ∧ 0 ≤ (Num.sqrt (Model.Gjk.epsTol : K) : K) ∧ (Num.sqrt (Model.Gjk.epsTol : K) : K) < 1 := by
+  letI := fieldNum K sq
+  have he := gjkEpsTol_eq (K := K) sq
+  have hpos : (0 : K) < 10 / 2 ^ 52 := by positivity
+  have hlt : (10 : K) / 2 ^ 52 < 1 := by
+    rw [div_lt_one (by positivity)]; norm_num
+  rw [he]
+  have h0 : 0 ≤ sq (10 / 2 ^ 52) := hs.nonneg _ hpos.le
+  have hm : sq (10 / 2 ^ 52) * sq (10 / 2 ^ 52) = 10 / 2 ^ 52 := hs.sq_mul _ hpos.le
+  refine ⟨hpos, h0, ?_⟩
+  by_contra hge
+  push Not at hge
+  have hge' : (1 : K) ≤ sq (10 / 2 ^ 52) := hge
+  have : (1 : K) ≤ sq (10 / 2 ^ 52) * sq (10 / 2 ^ 52) := by nlinarith
+  linarith
+
+/-- **a `ClosestPoints` answer of the 2-D loop body certifies that the shapes do not overlap** — partial: it does so at two of
+the four `ClosestPoints` return sites. If the pass left through the precision test `max_bound - min_bound ≤ ε_rel·max_bound`, or
+because the simplex became a triangle while `min_bound ≥ ε_tol`, then the origin is not a point of the configuration-space
+obstacle `C` (every `c ∈ C` has `|c| > 0`): the shapes are disjoint, in agreement with the positive `dist` the contact reports.
+GAP (stated as the first two alternatives): the exits "upper bounds inconsistencies" (previous direction returned) and
+"`add_point` refused the support point" carry no certificate. -/
+theorem gjkBody2_closest_disjoint_partial (hs : LawfulSqrt sq) (C : V2 K → Prop) (fs : V2 K → CSO2 K) (hsup : SupportsCSO2 C fs)
+    (maxDist : Option K) (s s' : Vs2 K) (proj oldDir p1 p2 d : V2 K) (maxBound : Option K) :
+    letI := fieldNum K sq
+    gjkBody2 fs maxDist true s proj oldDir maxBound = .exit (.closest p1 p2 d) s' →
+    (d = oldDir ∧ s' = s) ∨ (∃ s1, s.addPoint (fs d) = some (s1, false)) ∨
+    ∀ c, C c → 0 < c.x * c.x + c.y * c.y := by
+  letI := fieldNum K sq
+  intro h
+  obtain ⟨hepos, hr0, hr1⟩ := gjkEpsRel_bounds sq hs
+  obtain ⟨dir, mb, ht, hc⟩ := gjkBody2_closest_cases fs maxDist s s' proj oldDir p1 p2 d maxBound h
+  obtain ⟨hunit, hmb, _, _⟩ := tryNewAndGet2_spec sq hs proj.neg dir epsTol mb ht
+  rcases hc with ⟨e, _, _, e', _⟩ | ⟨rfl, _, _, _, htest⟩ | ⟨rfl, s1, ha, _⟩ | ⟨rfl, s1, s2, pr, _, _, _, hmin, _⟩
+  · exact Or.inl ⟨e, e'⟩
+  · right; right
+    intro c hcC
+    obtain ⟨_, hall⟩ := gjk_precise_certificate2 sq hs C fs hsup proj d mb (Num.sqrt epsTol) hr0 hr1.le ht htest
+    have := hall c hcC
+    have hp : 0 < (1 - Num.sqrt (epsTol : K)) * mb := mul_pos (by linarith) hmb
+    nlinarith
+  · exact Or.inr (Or.inl ⟨s1, ha⟩)
+  · right; right
+    intro c hcC
+    have := gjk_lower_bound2 C d epsTol hunit hepos.le
+      (fun c hc => by have := hsup d c hc; simp only [V2.dot] at hmin; linarith) c hcC
+    nlinarith
+
+/-- the same in 3-D (`gjkBody3`): precision exit, or tetrahedron with `min_bound ≥ ε_tol` ⇒ the origin is not in the obstacle -/
+theorem gjkBody3_closest_disjoint_partial (hs : LawfulSqrt sq) (C : V3 K → Prop) (fs : V3 K → CSO3 K) (hsup : SupportsCSO3 C fs)
+    (maxDist : Option K) (s s' : Vs3 K) (proj oldDir p1 p2 d : V3 K) (maxBound : Option K) :
+    letI := fieldNum K sq
+    gjkBody3 fs maxDist true s proj oldDir maxBound = .exit (.closest p1 p2 d) s' →
+    (d = oldDir ∧ s' = s) ∨ (∃ s1, s.addPoint (fs d) = some (s1, false)) ∨
+    ∀ c, C c → 0 < c.x * c.x + c.y * c.y + c.z * c.z := by
+  letI := fieldNum K sq
+  intro h
+  obtain ⟨hepos, hr0, hr1⟩ := gjkEpsRel_bounds sq hs
+  obtain ⟨dir, mb, ht, hc⟩ := gjkBody3_closest_cases fs maxDist s s' proj oldDir p1 p2 d maxBound h
+  obtain ⟨hunit, hmb, _, _⟩ := tryNewAndGet3_spec sq hs proj.neg dir epsTol mb ht
+  rcases hc with ⟨e, _, _, e', _⟩ | ⟨rfl, _, _, _, htest⟩ | ⟨rfl, s1, ha, _⟩ | ⟨rfl, s1, s2, pr, _, _, _, hmin, _⟩
+  · exact Or.inl ⟨e, e'⟩
+  · right; right
+    intro c hcC
+    obtain ⟨_, hall⟩ := gjk_precise_certificate3 sq hs C fs hsup proj d mb (Num.sqrt epsTol) hr0 hr1.le ht htest
+    have := hall c hcC
+    have hp : 0 < (1 - Num.sqrt (epsTol : K)) * mb := mul_pos (by linarith) hmb
+    nlinarith
+  · exact Or.inr (Or.inl ⟨s1, ha⟩)
+  · right; right
+    intro c hcC
+    have := gjk_lower_bound3 C d epsTol hunit hepos.le
+      (fun c hc => by have := hsup d c hc; simp only [V3.dot] at hmin; linarith) c hcC
+    nlinarith
 
 /-- non-vacuity of the hypotheses of `contactSmSm2_epa_arm` / `contactSmSm2_none_sound`: a unit rotation, a support function of
 the rectangle `|x| ≤ 1, |y| ≤ 2` returning its corners, and the support contract for a set of CSO points -/
